@@ -161,6 +161,8 @@ def show(v):
         return '(' + ', '.join(show(x) for x in a[0]) + ')'
     if t == 'fresh':
         return 'fresh#%s' % a[0]
+    if t == 'built':
+        return 'vec{%s}' % '; '.join(a[0])
     if t == 'unk':
         return '<%s>' % a[0]
     if t == 'match':
@@ -193,6 +195,7 @@ class Exec:
         self.env = {}
         self.ctx = []
         self.effects = []        # (ctx tuple of str, text)
+        self.io_set = set()      # inputs / outputs already overwritten (later reads see the post-state)
         self.atoms = []          # structured effects: (ctx, primitive, argument values)
         self.unknown = []        # constructs not understood (make the summary unusable for conformance)
         self.loopn = 0
@@ -230,8 +233,13 @@ class Exec:
         e = hir.strip(e)
         l = hir.local(e)
         if l and isinstance(self.env.get(l[1]), Val) and self.env[l[1]].tag == 'param':
-            return 'GraphLike' in (e.get('ty') or '') or l[0] in ('g', 'self', 'graph')
-        return l is not None and l[0] in ('g', 'self', 'graph')
+            return 'GraphLike' in (e.get('ty') or '') or l[0] in ('g', 'self', 'graph', 'other')
+        return l is not None and l[0] in ('g', 'self', 'graph', 'other')
+
+    def gname(self, e):
+        """prefix for queries on a graph other than the one being rewritten"""
+        l = hir.local(hir.strip(e))
+        return '' if (l is None or l[0] in ('g', 'self', 'graph')) else l[0] + '.' 
 
     def post(self):
         return "'" if self.mutated else ''
@@ -270,8 +278,8 @@ class Exec:
         if k == 'Index':
             b = self.ev(e['e'])
             i = self.ev(e['i'])
-            if isinstance(b, Val) and b.tag == 'coll' and isinstance(i, Val) and i.tag == 'idx':
-                return Val('elem', b, '%s[%s]' % (show(b), i.a[0]))
+            if isinstance(b, Val) and b.tag == 'coll' and isinstance(i, Val) and i.tag in ('idx', 'vtx', 'elem'):
+                return Val('elem', b, '%s[%s]' % (show(b), show(i)))
             if isinstance(b, Val) and b.tag == 'coll' and isinstance(i, Val) and i.tag == 'int' and i.a[0].is_const():
                 if b.a[0].startswith('inc'):
                     return Val('tuple', [Val('elem', b, '%s[%s].v' % (show(b), i.a[0])), Val('elem', b, '%s[%s].et' % (show(b), i.a[0]))])
@@ -280,6 +288,10 @@ class Exec:
                 return b.a[0][int(i.a[0].const_val())]
             if isinstance(b, Val) and b.tag == 'elem' and isinstance(i, Val) and i.tag == 'int' and i.a[0].is_const():
                 return Val('elem', b.a[0], '%s[%s]' % (b.a[1], i.a[0]))
+            bl = hir.local(e['e'])
+            if bl is not None and isinstance(i, Val) and i.tag in ('vtx', 'elem', 'fresh', 'idx'):
+                # lookup in a local table (e.g. a vertex map): symbolic element named table[key]
+                return Val('elem', Val('coll', bl[0], Val('vtx', '')), '%s[%s]' % (bl[0], show(i)))
             return Val('unk', 'index')
         if k == 'Unary' and e['op'] == 'Neg':
             x = self.ev(e['e'])
@@ -296,6 +308,8 @@ class Exec:
         if k == 'MethodCall':
             return self.method(e)
         if k == 'Call':
+            if hir.vec_literal(e) == []:
+                return Val('built', ())
             return self.call(e)
         if k == 'Struct':
             return Val('struct', e['ctor'].get('path'), dict((n, self.ev(x)) for n, x in e['fields']))
@@ -464,6 +478,8 @@ class Exec:
             self.emit('call %s(%s)' % (short, ', '.join(show(self.ev(a)) for a in args[1:])))
             self.mutated = True
             return Val('unit')
+        if c == 'graph::EType::merge':
+            return Val('merge', self.ev(args[0]), self.ev(args[1]))
         if c.endswith('mem::swap'):
             return self.unk('mem::swap', e)
         if short in ('default',):
@@ -478,6 +494,16 @@ class Exec:
         if c.startswith(GL) and self.is_graph(recv):
             m = c[len(GL):]
             a = [self.ev(x) for x in args]
+            gn = self.gname(recv)
+            if gn:
+                # a second (read-only) graph: only queries
+                if m in ('incident_edges', 'incident_edge_vec'):
+                    return Val('coll', gn + 'inc', a[0])
+                if m in ('neighbors', 'neighbor_vec'):
+                    return Val('coll', gn + 'N', a[0])
+                if m in ('inputs', 'outputs', 'vertices', 'edges', 'vertex_vec', 'edge_vec'):
+                    return Val('coll', gn + m, Val('vtx', ''))
+                return Val('q', '%s%s(%s)' % (gn, m, ', '.join(show(x) for x in a)))
             # queries
             if m == 'phase':
                 return Val('phase', Poly.sym('phase(%s)%s' % (show(a[0]), '')))
@@ -497,7 +523,9 @@ class Exec:
                 return Val('ty_of', a[0])
             if m == 'edge_type':
                 return Val('etype_of', a[0], a[1])
-            if m in ('row', 'qubit', 'coord', 'vertex_data', 'inputs', 'outputs', 'scalar', 'num_vertices', 'num_edges', 'contains_vertex', 'connected', 'edge_type_opt', 'vertex_type_opt', 'vertex_data_opt'):
+            if m in ('inputs', 'outputs'):
+                return Val('coll', m + ("'" if m in self.io_set else ''), Val('vtx', ''))
+            if m in ('row', 'qubit', 'coord', 'vertex_data', 'scalar', 'num_vertices', 'num_edges', 'contains_vertex', 'connected', 'edge_type_opt', 'vertex_type_opt', 'vertex_data_opt'):
                 return Val('q', '%s(%s)' % (m, ', '.join(sorted(show(x) for x in a)) if m in ('edge_type_opt', 'connected') else ', '.join(show(x) for x in a)))
             if m == 'scalar_mut':
                 return Val('scalar_mut')
@@ -535,8 +563,15 @@ class Exec:
                 txt = 'scalar_factor(%s, %s)' % (show(a[0]), show(a[1]))
             elif m in ('set_inputs', 'set_outputs'):
                 txt = '%s(%s)' % (m, show(a[0]))
-            elif m in ('x_to_z', 'pack', 'plug_vertex'):
+                self.io_set.add(m[4:])
+            elif m in ('x_to_z', 'pack', 'plug_vertex', 'adjoint'):
                 txt = '%s(%s)' % (m, ', '.join(show(x) for x in a))
+            elif m == 'append_graph':
+                self.emit('append_graph(%s)' % ', '.join(show(x) for x in a))
+                self.mutated = True
+                return Val('coll', 'vmap', Val('vtx', ''))
+            elif m in ('inputs_mut', 'outputs_mut'):
+                return Val('iomut', m[:-4])
             if txt is not None:
                 self.emit(txt)
                 self.atoms.append((tuple(self.ctx), m, a))
@@ -558,6 +593,10 @@ class Exec:
             if n == 'conj':
                 return Val('scalar', 'conj(scalar)')
             return self.unk('scalar.' + n, e)
+        if isinstance(r, Val) and r.tag == 'iomut' and n in ('remove', 'push', 'insert', 'clear', 'swap_remove'):
+            self.emit('%s.%s(%s)' % (r.a[0], n, ', '.join(show(self.ev(x)) for x in args)))
+            self.io_set.add(r.a[0])
+            return Val('unit')
         if n in ('clone', 'copied', 'cloned', 'iter', 'into_iter', 'collect', 'to_vec', 'by_ref', 'into') and len(args) == 0:
             return self.as_phase(r) if n == 'into' else r
         if n == 'len' and isinstance(r, Val) and r.tag == 'coll':
@@ -570,17 +609,42 @@ class Exec:
             return Val('merge', r, self.ev(args[0]))
         if n in ('is_empty', 'is_zero', 'is_one', 'is_pauli'):
             return Val('cond', '%s.%s' % (show(r), n))
+        if isinstance(r, Val) and r.tag == 'param' and not args and n.startswith('is_'):
+            return Val('cond', '%s.%s' % (r.a[0], n))
         if n == 'rev':
             return r
+        if n == 'enumerate' and isinstance(r, Val) and r.tag == 'coll':
+            return Val('coll', 'enumerate ' + show(r), Val('vtx', ''))
+        if n == 'len' and isinstance(r, Val) and r.tag == 'param':
+            return Val('int', Poly.sym('|%s|' % r.a[0]))
+        if n == 'push' and isinstance(r, Val) and r.tag == 'built' and len(args) == 1:
+            l = hir.local(recv)
+            if l:
+                loopctx = ' | '.join(self.ctx)
+                self.env[l[1]] = Val('built', r.a[0] + (('%s : %s' % (loopctx, show(self.ev(args[0])))) if loopctx else show(self.ev(args[0])),))
+                return Val('unit')
         if n == 'skip' and isinstance(r, Val) and r.tag in ('coll', 'elem'):
             base = r if r.tag == 'coll' else Val('coll', r.a[1], Val('vtx', ''))
             return Val('coll', 'skip%s:%s' % (show(self.ev(args[0])), base.a[0]), base.a[1])
         if n == 'len' and isinstance(r, Val) and r.tag == 'elem':
             return Val('int', Poly.sym('|%s|' % r.a[1]))
         if n in ('next',) and isinstance(r, Val) and r.tag == 'coll':
+            if 'inc' in r.a[0]:
+                return Val('tuple', [Val('elem', r, 'first(%s).v' % show(r)), Val('elem', r, 'first(%s).et' % show(r))])
             return Val('elem', r, 'first(%s)' % show(r))
-        if n in ('unwrap', 'expect'):
+        if n in ('unwrap', 'expect', 'unwrap_or_else'):
             return r
+        if n == 'map' and isinstance(r, Val) and r.tag == 'coll' and args and hir.strip(args[0]).get('k') == 'Closure':
+            cl = hir.strip(args[0])
+            saved = dict(self.env)
+            self.bind(cl['params'][0], Val('elem', r, 'x'))
+            body = show(self.ev(cl['body']))
+            self.env = saved
+            return Val('coll', 'map[x -> %s] %s' % (body, show(r)), Val('vtx', ''))
+        if n == 'conj' and isinstance(r, Val) and r.tag == 'q' and r.a[0].startswith('scalar'):
+            return Val('scalar', 'conj(scalar)')
+        if n == 'phase' and not args:
+            return Val('phase', Poly.sym('%s.phase' % show(r)))
         if n == 'find' and isinstance(r, Val) and r.tag == 'coll' and args and hir.strip(args[0]).get('k') == 'Closure':
             cl = hir.strip(args[0])
             sub_env = dict(self.env)
@@ -729,6 +793,11 @@ class Exec:
                     sym = 'sum[%s](%s)' % ('; '.join(loopctx), show(rp)) if loopctx else show(rp)
                     self.env[ll[1]] = Val('phase', acc.a[0] + (Poly.sym(sym) if loopctx else rp.a[0]))
                     return
+            if ll and k == 'AssignOp' and s['op'] in ('AddAssign', 'SubAssign') and isinstance(self.env.get(ll[1]), Val) and self.env[ll[1]].tag == 'int' and isinstance(r, Val) and r.tag == 'int':
+                ctxs = ' | '.join(self.ctx)
+                inc = r.a[0] * Poly.sym('count[%s]' % ctxs) if ctxs else r.a[0]
+                self.env[ll[1]] = Val('int', self.env[ll[1]].a[0] + (inc if s['op'] == 'AddAssign' else -inc))
+                return
             if ll and k == 'Assign' and isinstance(r, Val) and r.tag in ('varsum', 'vars'):
                 loopctx = [c for c in self.ctx if c.startswith(('each', 'for'))]
                 if loopctx:
@@ -810,7 +879,8 @@ def check_schema(ck, rule, key, ref, facts=None, no_vars=True):
     facts = facts or ck.facts
     got, unknown = effects_of(facts, key, no_vars=no_vars)
     ck.fn(key)
-    unknown = unknown + [g for g in got if '<' in g and '<=' not in g.replace('<= ', '')][:3]
+    import re as _re
+    unknown = unknown + [g for g in got if _re.search(r'<[a-zA-Z][a-zA-Z0-9_ :.-]*>', g)][:3]
     ok_u = not unknown
     ck.ob(rule, key + '/understood', ok_u, ck.site(key), 'constructs not understood by the effect executor (not-established-by-recognised-idiom): %s' % unknown[:3], sample={'effects': len(got)})
     gs, rs = set(got), set(ref)
